@@ -16,6 +16,7 @@ Definition c_StructEnd := 11.
 Definition c_ZeroTag := 12.
 Definition c_SimpleList := 13.
 Definition c_maxSkipDepth := 512.
+Definition c_maxInt32 := 2147483647.
 Definition c_minStaticWeightLimit := 10.
 Definition c_maxStaticWeightLimit := 100.
 Definition c_ConHashVirtualNodes := 100.
